@@ -248,7 +248,7 @@ const ufPrelude = `(declare-sort Str 0)
 ; substring equality is an occurrence; occurrences shift under substrings
 (assert (forall ((s Str) (t Str) (j Int) (n Int)) (! (=> (and (streq (s.sub s j n) t) (= n (s.len t)) (<= 0 j) (<= (+ j n) (s.len s))) (s.occ s t j)) :pattern ((streq (s.sub s j n) t)))))
 (assert (forall ((s Str) (t Str) (j Int)) (! (=> (s.occ s t j) (= (s.sub s j (s.len t)) t)) :pattern ((s.occ s t j)))))
-(assert (forall ((s Str) (t Str) (j Int) (a Int) (n Int)) (! (=> (and (s.occ (s.sub s a n) t j) (<= 0 a)) (s.occ s t (+ a j))) :pattern ((s.occ (s.sub s a n) t j)))))
+(assert (forall ((s Str) (t Str) (j Int) (a Int) (n Int)) (! (=> (and (s.occ (s.sub s a n) t j) (<= 0 a) (<= a (s.len s))) (s.occ s t (+ a j))) :pattern ((s.occ (s.sub s a n) t j)))))
 (assert (forall ((s Str) (t Str) (j Int) (a Int) (n Int)) (! (=> (and (s.occ s t j) (<= 0 a) (<= a j) (<= (+ j (s.len t)) (+ a n)) (<= (+ a n) (s.len s))) (s.occ (s.sub s a n) t (- j a))) :pattern ((s.occ s t j) (s.sub s a n)))))
 ; prefix / suffix
 (assert (forall ((p Str) (s Str)) (! (= (s.pre p s) (s.occ s p 0)) :pattern ((s.pre p s)))))
